@@ -30,6 +30,7 @@ type pSpec struct {
 	tokens  []string // token i has terminal index i+2
 	rules   []pRule  // rules[0] is the start rule
 	bounds  bool
+	boundsFirst bool // _onBounds is declared before the action methods
 	discard string // token whose Discard() is true (for *!)
 	maxLen  int
 	withErr bool // inputs also contain lexer ERROR tokens
@@ -154,6 +155,10 @@ func (s pSpec) userCode() string {
 		disc = s.tokIndex(s.discard)
 	}
 	fmt.Fprintf(&sb, "const discardType = %d\n\n", disc)
+	onBounds := "func (p *fxParser) _onBounds(r any, begin, end Token) {\n\tp.bounds = append(p.bounds, boundsCall{show(r), begin.Pos, end.Pos})\n}\n\n"
+	if s.bounds && s.boundsFirst {
+		sb.WriteString(onBounds)
+	}
 	for _, r := range s.rules {
 		for k, p := range r.prods {
 			name := "on_" + r.name
@@ -174,8 +179,8 @@ func (s pSpec) userCode() string {
 			sb.WriteString(")\n}\n\n")
 		}
 	}
-	if s.bounds {
-		sb.WriteString("func (p *fxParser) _onBounds(r any, begin, end Token) {\n\tp.bounds = append(p.bounds, boundsCall{show(r), begin.Pos, end.Pos})\n}\n")
+	if s.bounds && !s.boundsFirst {
+		sb.WriteString(onBounds)
 	}
 	return sb.String()
 }
@@ -741,12 +746,23 @@ func parseFixtures() []pSpec {
 			{"pp", []pProd{P(rl("xx"))}},
 			{"xx", []pProd{P()}},
 		}},
+		// @error as an alternative of a recursive rule: after the reduction of "s = @error" the
+		// offending token is still the lookahead (LALR merges the lookaheads of that item)
+		{name: "errors-alternative", tokens: []string{"A", "B", "C"}, maxLen: 5, withErr: true, rules: []pRule{
+			{"s", []pProd{P(A, rl("s"), B), P(C), P(pTerm{kind: "error"})}},
+		}},
 		{name: "bounds", bounds: true, tokens: []string{"A", "B", "C", "D", "E", "F"}, maxLen: 4, rules: []pRule{
 			{"s", []pProd{P(rl("m"), sugar("star", rl("y")), rl("z"), tk("D"))}},
 			{"m", []pProd{P(sugar("opt", rl("x")), sugar("opt", tk("F")))}},
 			{"x", []pProd{P(A)}},
 			{"y", []pProd{P(B), P(C, B)}},
 			{"z", []pProd{P(tk("E"), tk("E")), P()}},
+		}},
+		// the same feature detected when _onBounds is not the last method of the parser type
+		{name: "bounds-declared-first", bounds: true, boundsFirst: true, tokens: []string{"A", "B", "C"}, maxLen: 4, rules: []pRule{
+			{"s", []pProd{P(rl("m"), sugar("star", rl("y")), tk("C"))}},
+			{"m", []pProd{P(sugar("opt", tk("A")))}},
+			{"y", []pProd{P(B)}},
 		}},
 	}
 }
